@@ -58,8 +58,9 @@ def main(argv=None):
     from vf import contracts_all  # noqa: F401
     known = load_json(os.path.join(VERIF, "known_findings.json"), {"findings": [], "fixed": []})
     ledger = load_json(os.path.join(VERIF, "obligations.lock.json"), {})
-    os.makedirs(os.path.join(VERIF, "evidence"), exist_ok=True)
-    rdir = os.path.join(VERIF, "replays", prop)
+    OUT = os.environ.get("VF_OUT", VERIF)  # mutant evaluation redirects evidence / replays away from /verif
+    os.makedirs(os.path.join(OUT, "evidence"), exist_ok=True)
+    rdir = os.path.join(OUT, "replays", prop)
     os.makedirs(rdir, exist_ok=True)
 
     violations = []  # (replay path, suffix, obligation)
@@ -230,7 +231,7 @@ def main(argv=None):
     }
     ev = {"property_id": prop, "tier": tier, "seed": seed, "level": level, "coverage": cov,
           "assumptions": sorted(trusted), "wall_s": round(wall, 2), "violations": len(seen)}
-    with open(os.path.join(VERIF, "evidence", f"{prop}.json"), "w") as f:
+    with open(os.path.join(OUT, "evidence", f"{prop}.json"), "w") as f:
         json.dump(ev, f, indent=1, default=str)
     print(f"{prop}: obligations {ob_proved}/{ob_total} discharged, contracts {len(cov['contracts'])}, cases {len(results)}, "
           f"rtc evaluations {rtc_eval}, known findings {len(known_hits)}, violations {len(seen)}, undecided {len(undecided)}, wall {wall:.1f}s")
